@@ -47,19 +47,24 @@ type Cfg struct {
 
 // Step is one environment choice.
 type Step struct {
-	Op  string `json:"op"`
-	G   int    `json:"g"`
-	P   int    `json:"p"`
-	I   int    `json:"i"`
-	D   int64  `json:"d"`
-	Dir string `json:"dir"`
-	Act string `json:"act"`
-	Svc string `json:"svc"`
-	Ch  string `json:"ch"`  // own | other
-	Rel int    `json:"rel"` // sequence number relative to the live counter
-	St  int    `json:"st"`
-	S   string `json:"s"`
-	N   int    `json:"n"`
+	Op   string `json:"op"`
+	G    int    `json:"g"`
+	P    int    `json:"p"`
+	I    int    `json:"i"`
+	D    int64  `json:"d"`
+	Dir  string `json:"dir"`
+	Act  string `json:"act"`
+	Svc  string `json:"svc"`
+	Ch   string `json:"ch"`   // own | other
+	Rel  int    `json:"rel"`  // sequence number relative to the live counter
+	Q    int    `json:"q"`    // net: 1 + sequence number (modulo Mod) the addressed datagram must carry; 0 = any
+	Qch  int    `json:"qch"`  // net: 1 + channel the addressed datagram must carry; 0 = any
+	Qst  int    `json:"qst"`  // net: 1 + status the addressed datagram must carry; 0 = any
+	Mod  int    `json:"mod"`  // modulus of Q (the specification counts modulo 4)
+	Base string `json:"base"` // "ctr": relative to the client's send counter instead of the last transmitted number
+	St   int    `json:"st"`
+	S    string `json:"s"`
+	N    int    `json:"n"`
 }
 
 // Run is one schedule.
@@ -94,10 +99,14 @@ type World struct {
 	readerOn  bool
 	readerCtl chan struct{}
 	readerWg  sync.WaitGroup
+	recv1On   bool
+	recv1Ctl  chan struct{}
 
-	curSnd    int // sequence number of the last TunnelReq the client transmitted
-	rcvExpect int // sequence number the client should expect next (by the rule)
-	chanNow   int // channel of the current epoch as assigned by ConnRes delivered
+	curSnd     int  // sequence number of the last TunnelReq the client transmitted
+	sndCtr     int  // the client's send counter as far as the driver can tell (in-flight number, +1 once acknowledged)
+	connecting bool // a ConnReq went out and no positive ConnRes has been taken in since
+	rcvExpect  int  // sequence number the client should expect next (by the rule)
+	chanNow    int  // channel of the current epoch as assigned by ConnRes delivered
 }
 
 func NewWorld(rec *sim.Recorder, cfg Cfg, quiesce func()) *World {
@@ -111,15 +120,25 @@ func NewWorld(rec *sim.Recorder, cfg Cfg, quiesce func()) *World {
 			w.attMu.Lock()
 			w.att++
 			w.attMu.Unlock()
+			w.mu.Lock()
+			if w.connecting {
+				w.connecting = false
+				w.sndCtr = 0
+			}
+			w.mu.Unlock()
 		}
 	}
 	w.Sock.OnTx = func(f sim.Frame) {
 		if f.Svc == "TunnelReq" {
 			w.mu.Lock()
 			w.curSnd = f.Seq
+			w.sndCtr = f.Seq
 			w.mu.Unlock()
 		}
 		if f.Svc == "ConnReq" {
+			w.mu.Lock()
+			w.connecting = true
+			w.mu.Unlock()
 			w.attMu.Lock()
 			f.Att = w.att
 			w.attMu.Unlock()
@@ -187,7 +206,14 @@ func (w *World) arrive(f sim.Frame) {
 		// Bubble limitation: requestConn would block on the sequence mutex (not a durable
 		// block) while a Send holds it across its timers, and virtual time could never
 		// advance. The environment therefore delays this response until no Send is pending.
-		for i := 0; i < 64 && w.anyBusy(); i++ {
+		// (only while the client is actually connecting: a stray ConnRes is ignored by process())
+		w.mu.Lock()
+		conn := w.connecting
+		w.mu.Unlock()
+		if conn && w.anyBusy() {
+			w.Rec.Simple("Delayed", -1, -1, -1, "connres-while-send-pending")
+		}
+		for i := 0; conn && i < 64 && w.anyBusy(); i++ {
 			time.Sleep(time.Duration(w.Cfg.R) * time.Microsecond)
 			w.Quiesce()
 		}
@@ -276,6 +302,9 @@ func (w *World) Exec(st Step) {
 			r := sim.Ev{K: "SendRet", G: st.G, Ch: -1, Seq: -1, St: -1, Pid: st.P, A: -1, B: -1, S: errClass(err)}
 			w.mu.Lock()
 			w.busy[st.G] = false
+			if r.S == "ok" || r.S == "rejected" {
+				w.sndCtr = (w.curSnd + 1) % 256
+			}
 			w.mu.Unlock()
 			w.Rec.Emit(r)
 		}()
@@ -294,6 +323,15 @@ func (w *World) Exec(st Step) {
 			k := 0
 			for j := 0; j < n; j++ {
 				if f, _ := w.Net.Peek(st.Dir, j); f.Svc == st.Svc {
+					if st.Q > 0 && st.Mod > 0 && f.Seq >= 0 && f.Seq%st.Mod != st.Q-1 {
+						continue
+					}
+					if st.Qst > 0 && f.St != st.Qst-1 {
+						continue
+					}
+					if st.Qch > 0 && f.Ch != st.Qch-1 {
+						continue
+					}
 					if k == st.I {
 						i = j
 						break
@@ -378,7 +416,11 @@ func (w *World) Exec(st Step) {
 		var p knxnet.ServicePackable
 		switch st.Svc {
 		case "TunnelRes":
-			p = &knxnet.TunnelRes{Channel: uint8(ch), SeqNumber: uint8(w.curSnd + st.Rel), Status: knxnet.ErrCode(st.St)}
+			base := w.curSnd
+			if st.Base == "ctr" {
+				base = w.sndCtr
+			}
+			p = &knxnet.TunnelRes{Channel: uint8(ch), SeqNumber: uint8(base + st.Rel), Status: knxnet.ErrCode(st.St)}
 		case "TunnelReq":
 			p = &knxnet.TunnelReq{Channel: uint8(ch), SeqNumber: uint8(w.rcvExpect + st.Rel), Payload: sim.Payload(st.P, true)}
 		case "ConnStateRes":
@@ -446,6 +488,56 @@ func (w *World) Exec(st Step) {
 		default:
 			w.Rec.Simple("RecvNone", -1, -1, -1, "")
 		}
+	case "recv1": // one blocking receive (AppRecv / AppRecvRet of the specification)
+		t := w.tunnel()
+		if t == nil {
+			skip("noconn")
+			return
+		}
+		w.mu.Lock()
+		pend := w.recv1On
+		if !pend {
+			w.recv1On = true
+			if w.recv1Ctl == nil {
+				w.recv1Ctl = make(chan struct{})
+			}
+		}
+		ctl := w.recv1Ctl
+		w.mu.Unlock()
+		if pend {
+			skip("recv-pending")
+			return
+		}
+		w.readerWg.Add(1)
+		go func() {
+			defer w.readerWg.Done()
+			defer func() { w.mu.Lock(); w.recv1On = false; w.mu.Unlock() }()
+			if w.Cfg.Group {
+				select {
+				case <-ctl:
+				case ev, ok := <-w.gt.Inbound():
+					if !ok {
+						w.Rec.Simple("RecvClosed", -1, -1, -1, "")
+						return
+					}
+					pid := -1
+					if len(ev.Data) == 3 {
+						pid = int(ev.Data[1])<<8 | int(ev.Data[2])
+					}
+					w.Rec.Emit(sim.Ev{K: "Recv", G: -1, Ch: -1, Seq: -1, St: -1, Pid: pid, A: -1, B: -1})
+				}
+				return
+			}
+			select {
+			case <-ctl:
+			case m, ok := <-t.Inbound():
+				if !ok {
+					w.Rec.Simple("RecvClosed", -1, -1, -1, "")
+					return
+				}
+				w.Rec.Emit(sim.Ev{K: "Recv", G: -1, Ch: -1, Seq: -1, St: -1, Pid: sim.PidOf(m), A: -1, B: -1})
+			}
+		}()
 	case "reader":
 		t := w.tunnel()
 		if t == nil {
@@ -605,6 +697,13 @@ func (w *World) Teardown() {
 		w.readerWg.Wait()
 		w.readerOn = false
 	}
+	w.mu.Lock()
+	if w.recv1Ctl != nil {
+		close(w.recv1Ctl)
+		w.recv1Ctl = nil
+	}
+	w.mu.Unlock()
+	w.readerWg.Wait()
 	if t != nil {
 		done := make(chan struct{})
 		w.Rec.Simple("CloseCall", 0, -1, -1, "teardown")
@@ -647,4 +746,32 @@ func CfgEvent(r Run) sim.Ev {
 	}
 	return sim.Ev{K: "Cfg", G: int(r.Cfg.H), Ch: int(r.Cfg.Slack), Seq: -1, St: -1, Pid: r.ID, A: int(r.Cfg.R), B: int(r.Cfg.T),
 		S: fmt.Sprintf("%s,%s", mode, r.Cfg.Mode)}
+}
+
+// Watchdog measures, in real-time runs, how late this process is woken from a 1 ms sleep and records
+// every lateness above a quarter of the run's slack as a Stall event (a = lateness in microseconds).
+// The orchestrator widens the upper time bounds of a run by what was measured: a starved machine
+// delays the client's timers just as it delays this goroutine.
+func Watchdog(rec *sim.Recorder, slack int64) (stop func()) {
+	quit := make(chan struct{})
+	done := make(chan struct{})
+	thr := time.Duration(slack/4) * time.Microsecond
+	if thr < 500*time.Microsecond {
+		thr = 500 * time.Microsecond
+	}
+	go func() {
+		defer close(done)
+		for {
+			t0 := time.Now()
+			select {
+			case <-quit:
+				return
+			case <-time.After(time.Millisecond):
+			}
+			if late := time.Since(t0) - time.Millisecond; late > thr {
+				rec.Simple("Stall", -1, int(late/time.Microsecond), -1, "")
+			}
+		}
+	}()
+	return func() { close(quit); <-done }
 }
